@@ -34,8 +34,15 @@ pub fn check_case(ctx: &Ctx, case: &ProgCase, challenges: &[Vec<airx::Q>], hints
     let cj = || json!({"name": case.name, "src": case.src, "kernel": case.kernel, "stack": case.stack, "advice": case.advice, "merkle": !case.merkle_leaves.is_empty()});
     let program = match mcx::guard::catch(|| case.assembler().compile(&case.src)) {
         Ok(Ok(p)) => p,
-        Ok(Err(e)) => panic!("family program {} must assemble: {e}\n{}", case.name, case.src),
-        Err(p) => panic!("assembler panicked on {}: {p}", case.name),
+        // the family assembles and executes on the unchanged tree: a failure here is the subject's
+        Ok(Err(e)) => {
+            ctx.fail(json!({"kind": "family_program_does_not_assemble", "error": e.to_string().chars().take(60).collect::<String>()}), format!("{}: {e}", case.name), cj());
+            return;
+        }
+        Err(p) => {
+            ctx.fail(json!({"kind": "assembler_panic", "panic": mcx::guard::short_panic(&p)}), case.name.clone(), cj());
+            return;
+        }
     };
     let mut local: BTreeMap<String, u64> = BTreeMap::new();
     let mut first: Option<Vec<u64>> = None;
@@ -43,7 +50,10 @@ pub fn check_case(ctx: &Ctx, case: &ProgCase, challenges: &[Vec<airx::Q>], hints
         let opts = ExecutionOptions::new(None, hint, false).expect("options");
         let mut trace = match exec_trace(&program, &case.stack, case.advice_inputs(), opts) {
             Ok(Ok(t)) => t,
-            Ok(Err(e)) => panic!("family program {} must execute: {e:?}\n{}", case.name, case.src),
+            Ok(Err(e)) => {
+                ctx.fail(json!({"kind": "family_program_does_not_execute", "error": crate::common::err_variant(&format!("{e:?}"))}), format!("{}: {e:?} (hint {hint})", case.name), cj());
+                return;
+            }
             Err(p) => {
                 ctx.fail(json!({"kind": "execute_panic", "panic": mcx::guard::short_panic(&p)}), format!("{} hint {hint}", case.name), cj());
                 return;
